@@ -19,6 +19,7 @@ func init() {
 	generators["c19"] = genC19
 	generators["c19hist"] = genC19Hist
 	generators["c20shared"] = genC20Shared
+	generators["c20paren"] = genC20Paren
 	generators["c20"] = genC20
 	generators["c20k3"] = genC20K3
 	runners["dir"] = runDir
@@ -61,6 +62,12 @@ func parseEntry(t *Toks, shared map[string][]string) *gldap.Entry {
 			vals = v
 		} else if shared != nil {
 			shared[key] = vals
+		}
+		if name == "password" && (len(dn)+len(vals))%2 == 0 {
+			// an attribute written as a struct literal with its string values only (both value
+			// fields are exported; everything in gldap and the directory reads Values)
+			e.Attributes = append(e.Attributes, &gldap.EntryAttribute{Name: name, Values: vals})
+			continue
 		}
 		e.Attributes = append(e.Attributes, gldap.NewEntryAttribute(name, vals))
 	}
@@ -321,6 +328,38 @@ func (g *Gen) dirOp() string {
 		return "setusers " + listStr(es)
 	default:
 		return "bind " + hxs(dn) + " " + hxs("wrong")
+	}
+}
+
+// DNs with (balanced) parentheses next to DNs that contain what stands inside them: neither is a
+// substring of the other, so they are different entries for every operation
+func genC20Paren(g *Gen) {
+	r := g.rng
+	pairs := [][2]string{{"cn=Bob (admin)", "cn=admin"}, {"cn=Carol (ops)", "cn=ops"}, {"cn=x (y) z", "cn=y"}}
+	for i := 0; i < g.n; i++ {
+		pr := pairs[i%len(pairs)]
+		a, b := pr[0]+","+dirUserDN, pr[1]+","+dirUserDN
+		addOf := func(dn, name string) string {
+			return "add " + hxs(dn) + " " + listStr([]string{hxs("name") + " 1 " + hxs(name)})
+		}
+		look := func(dn string) string { return "search " + hxs(dn) + " " + hxs("(objectClass=*)") }
+		ops := []string{addOf(a, "first"), look(a), addOf(a, "again")}
+		ops = append(ops, addOf(b, "second"), look(a), look(b))
+		for s := 3 + r.Intn(4); s > 0; s-- {
+			dn := []string{a, b}[r.Intn(2)]
+			switch r.Intn(4) {
+			case 0:
+				ops = append(ops, "modify "+hxs(dn)+" 1 2 "+hxs("name")+" 1 "+hxs(r.Pick([]string{"v1", "v2"})))
+			case 1:
+				ops = append(ops, "modify "+hxs(dn)+" 1 0 "+hxs("email")+" 1 "+hxs("e@x"))
+			case 2:
+				ops = append(ops, "delete "+hxs(dn))
+			default:
+				ops = append(ops, addOf(dn, "re"))
+			}
+			ops = append(ops, look(a), look(b))
+		}
+		g.emit("dir", hxs(dirUserDN), hxs(dirGroupDN), "0", "0", "0", listStr(ops))
 	}
 }
 
